@@ -45,15 +45,17 @@ RULE = ('Position: for each known protocol version (iterated from '
         'Record: all x,z in 0..15, y in 0..15 (>= 741) / 0..255 (< 741), '
         'block-state ids at every VarInt/VarLong width boundary, on versions '
         'around 741/748, first and last (thorough: also every other version '
-        'with 3 ids).  Cases are distinct by construction; a case is '
+        'with 2 ids).  Cases are distinct by construction; a case is '
         'non-trivial unless all its coordinates / its word / its record '
         'fields are zero.')
 ASSUMPTIONS = ['publication rank is taken from minecraft.PROTOCOL_VERSION_'
                'INDICES of the tree under test (checked to be a bijection on '
                'KNOWN_PROTOCOL_VERSIONS containing 404, 443, 477, 741, 748)',
-               'packet ids and the Integer/Boolean/VarInt framing used around '
-               'the records in the whole-packet cases are not judged here '
-               '(the id is parsed and skipped)']
+               'whole-packet cases: the packet id is parsed and skipped; the '
+               'surrounding fields (Integer chunk_x/chunk_z before 741; from '
+               '748 a Boolean invert_trust_edges between section position '
+               'and records; VarInt record count) follow the protocol '
+               'documentation']
 
 PER_TASK_REPORTS = 3        # distinct violations recorded per task and op
 PROBE = (0x1234567, 0x2A5, -0x0F0F0F1)
@@ -198,14 +200,15 @@ def alphabets(seed):
     A['swords'] = words(('S',), seedwords)
     # block-state ids: every width boundary of VarInt(state) and of
     # VarLong(state << 12 | ...)
-    ids = [0, 1, 2, 3, 4, 7, 8, 15, 16, 127, 128, 255, 256]
-    for k in (9, 14, 16, 21, 23, 28, 30):
-        ids += [2**k - 1, 2**k]
-    ids += [2**31 - 1, rnd.randrange(1, 2**15), rnd.randrange(2**15, 2**31)]
-    A['ids_old'] = dedupe(ids)                      # VarInt, < 2^31
-    A['ids_new'] = dedupe(ids + [2**37 - 1, 2**37, 2**44 - 1, 2**44,
-                                 2**51 - 1, 2**51, 2**52 - 1])
-    A['ids_few'] = [0, 16383, 2**31 - 1]
+    common = [0, 1, 127, 128, 255, 256, 16383, 16384, 2**21 - 1, 2**21,
+              2**28 - 1, 2**28, 2**31 - 1]
+    seeded = [rnd.randrange(1, 2**15), rnd.randrange(2**15, 2**31)]
+    A['ids_old'] = dedupe(common + seeded)          # VarInt, < 2^31
+    shifted = []                 # VarLong(state << 12 | ...) changes width
+    for k in (2, 9, 16, 23, 30, 37, 44, 51):
+        shifted += [2**k - 1, 2**k]
+    A['ids_new'] = dedupe(common + shifted + [2**52 - 1] + seeded)
+    A['ids_few'] = [300, 2**31 - 1]
     A['chunks'] = dedupe([(0, 0), (-1, -1), (2**31 - 1, -2**31), (1, -2),
                           (rnd.randrange(-2**31, 2**31),
                            rnd.randrange(-2**31, 2**31))])
